@@ -39,7 +39,7 @@ def run(pid, tier):
     gens = [(255, 4, None), (127, 4, None), (255, 12, 2500 if not thorough else 20000),
             (127, 12, 1500 if not thorough else 10000)]
     if thorough:
-        gens += [(255, 5, None), (127, 5, None), (255, 6, None)]
+        gens += [(255, 5, None), (127, 5, None)]     # depth 6 (8.8 million behaviours with their histories) exhausts TLC's heap after half an hour: not run
     nbeh = 0
     for (m, depth, simnum) in gens:
         tag = 'gen_m%d_d%d%s' % (m, depth, '_sim' if simnum else '')
